@@ -77,6 +77,24 @@ class BackendVSA(Backend):
         self._op_raw["__and__"] = self._op_and
         self._op_raw["__mod__"] = self._op_mod
 
+        # == and != of two Boolean expressions: BoolResult.__eq__ compares the abstract values themselves
+        self._op_raw["__eq__"] = self._op_eq
+        self._op_raw["__ne__"] = self._op_ne
+
+    @staticmethod
+    def _op_eq(a, b):
+        if isinstance(a, BoolResult | bool) and isinstance(b, BoolResult | bool):
+            avals = (a,) if isinstance(a, bool) else a.value
+            bvals = (b,) if isinstance(b, bool) else b.value
+            return BoolResult(tuple(sorted({x == y for x in avals for y in bvals}, reverse=True)))
+        return a == b
+
+    @staticmethod
+    def _op_ne(a, b):
+        if isinstance(a, BoolResult | bool) and isinstance(b, BoolResult | bool):
+            return ~BackendVSA._op_eq(a, b)
+        return a != b
+
     @staticmethod
     def _op_add(*args):
         return reduce(operator.__add__, args)
